@@ -685,7 +685,7 @@ func runC20(c *Ctx) {
 		c20replay(c, readReplayCases(c.Args[1]))
 		return
 	}
-	n := 360
+	n := 300
 	c20seqBudget = 12
 	if c.Tier == "thorough" {
 		n = 8000
